@@ -26,6 +26,11 @@ def tag_bytes(I, info, tag='bytes'):
 def bytes_info(I, sl):
     ctx = I.ctx
     sl = ctx.force(sl)
+    if isinstance(sl, SymBytes):
+        t = sl.s
+        if z3.is_app(t) and t.decl().name() == 'str.from_code':
+            return ctx.ghost.get('bytes_tag_term', {}).get(str(t.arg(0)))
+        return None
     if not isinstance(sl, Slice) or sl.base is None:
         return None
     info = ctx.ghost.get('bytes_tag', {}).get(sl.base.cell)
